@@ -31,6 +31,7 @@ type Prog struct {
 	Funcs   map[*ssa.Function]bool
 	byName  map[string]*ssa.Function
 	cg      *callgraph.Graph
+	eff     *Effects
 	Sizes   types.Sizes
 	IntBits int
 }
